@@ -21,6 +21,7 @@ func (x *Exec) run(st *State, b *ssa.BasicBlock) {
 		if st.prev != nil && l.Body[st.prev] && st.inLoop[l] {
 			// back edge: invariant preserved, variant decreased; path ends
 			x.checkInvariants(st, l, "preserved")
+			x.checkCounters(st, l)
 			x.checkLoopFrame(st, l)
 			x.checkLoopEnsures(st, l)
 			if dec := x.ct.loopDec(l.Ordinal); dec != nil && x.isRangeLoop(l) {
@@ -179,17 +180,35 @@ func (x *Exec) havocLoop(st *State, l *Loop) {
 			l.Cells = []*ssa.Alloc{}
 		}
 	}
+	var bounds []counterBound
 	for _, a := range l.Cells {
 		if x.heapCls[a] {
 			continue
 		}
-		if _, ok := st.cells[a]; !ok {
+		old, ok := st.cells[a]
+		if !ok {
 			continue // allocated inside the loop: re-initialised by its Alloc
 		}
 		t := derefType(a.Type())
 		nv := x.freshVar("loop_"+a.Comment, sortOfStatic(t))
 		st.cells[a] = nv
 		x.enterFacts(st, nv, t)
+		if dir := x.counterDirection(l, a); dir != 0 && old != nil {
+			// engine-supplied invariant of a guarded counting loop (proved again at every back
+			// edge: obligation autoinv): the counter stays on one side of its entry value
+			if dir > 0 {
+				st.add(Ge(nv, old))
+			} else {
+				st.add(Le(nv, old))
+			}
+			bounds = append(bounds, counterBound{a, dir > 0, old})
+		}
+	}
+	if len(bounds) > 0 {
+		if st.counters == nil {
+			st.counters = map[*Loop][]counterBound{}
+		}
+		st.counters[l] = bounds
 	}
 	if os.Getenv("GOWP_DEBUG") != "" {
 		fmt.Fprintf(os.Stderr, "loop %d of %s: mods %v cells %d\n", l.Ordinal, relName(x.fn), sortedKeys(l.Mods), len(l.Cells))
@@ -281,6 +300,106 @@ func (x *Exec) rangeIndexInvariant(st *State, l *Loop) {
 	}
 	n := x.term(st, x.val(st, cmpI.Y), cmpI.Y.Type())
 	st.add(Ge(ri, IntLit(-1)), Or(Lt(ri, n), Eq(ri, IntLit(-1))))
+}
+
+// counterDirection: +1 / -1 when every store to the integer cell inside the loop adds / subtracts
+// a non-negative constant to its own value and the loop's guard compares the cell (a counting
+// loop `for i := a; i < n; i++`, in either direction); 0 otherwise. Under the guard the step
+// cannot wrap around, so the bound is an invariant in wrapping arithmetic too.
+func (x *Exec) counterDirection(l *Loop, a *ssa.Alloc) int {
+	if x.ct != nil && x.ct.Wraps {
+		return 0
+	}
+	bt, ok := derefType(a.Type()).Underlying().(*types.Basic)
+	if !ok || bt.Info()&types.IsInteger == 0 || bt.Info()&types.IsUnsigned != 0 {
+		return 0
+	}
+	isLoad := func(v ssa.Value) bool {
+		u, ok := v.(*ssa.UnOp)
+		return ok && u.Op == token.MUL && u.X == ssa.Value(a)
+	}
+	dir := 0
+	for b := range l.Body {
+		for _, in := range b.Instrs {
+			s, ok := in.(*ssa.Store)
+			if !ok || rootAlloc(s.Addr) != a {
+				continue
+			}
+			if s.Addr != ssa.Value(a) {
+				return 0
+			}
+			bo, ok := s.Val.(*ssa.BinOp)
+			if !ok || (bo.Op != token.ADD && bo.Op != token.SUB) || !isLoad(bo.X) {
+				return 0
+			}
+			c, ok := bo.Y.(*ssa.Const)
+			if !ok || c.Value == nil {
+				return 0
+			}
+			n := c.Int64()
+			if bo.Op == token.SUB {
+				n = -n
+			}
+			d := 0
+			if n > 0 {
+				d = 1
+			} else if n < 0 {
+				d = -1
+			}
+			if d != 0 && dir != 0 && d != dir {
+				return 0
+			}
+			if d != 0 {
+				dir = d
+			}
+		}
+	}
+	if dir == 0 {
+		return 0
+	}
+	// the guard at the head compares the counter
+	h := l.Head
+	if len(h.Instrs) == 0 {
+		return 0
+	}
+	ifI, ok := h.Instrs[len(h.Instrs)-1].(*ssa.If)
+	if !ok {
+		return 0
+	}
+	cmp, ok := ifI.Cond.(*ssa.BinOp)
+	if !ok {
+		return 0
+	}
+	switch cmp.Op {
+	case token.LSS, token.LEQ, token.GTR, token.GEQ:
+	default:
+		return 0
+	}
+	if !isLoad(cmp.X) && !isLoad(cmp.Y) {
+		return 0
+	}
+	// moving towards the bound it is compared with: i < n / i <= n going up, i > n / i >= n going down
+	up := (isLoad(cmp.X) && (cmp.Op == token.LSS || cmp.Op == token.LEQ)) || (isLoad(cmp.Y) && (cmp.Op == token.GTR || cmp.Op == token.GEQ))
+	if up != (dir > 0) {
+		return 0
+	}
+	return dir
+}
+
+// checkCounters: the inferred counter bounds hold again at the back edge.
+func (x *Exec) checkCounters(st *State, l *Loop) {
+	for _, cb := range st.counters[l] {
+		cur, ok := st.cells[cb.cell]
+		if !ok || cur == nil {
+			continue
+		}
+		goal := Le(cur, cb.entry)
+		if cb.up {
+			goal = Ge(cur, cb.entry)
+		}
+		x.oblige(st.clone(), "autoinv", fmt.Sprintf("#%d:%s", l.Ordinal, cb.cell.Comment), goal, l.Head.Instrs[0].Pos(),
+			"inferred bound of the loop counter "+cb.cell.Comment+" (it only moves one way)")
+	}
 }
 
 type loopLoc struct {
